@@ -56,38 +56,54 @@ ClearOpt(kind, row, val, G) ==
         near == {j \in DOMAIN row : ~ClearlyWorse(kind, vf[j], optf, G)}
     IN  IF Cardinality(near) = 1 THEN CHOOSE j \in near : TRUE ELSE 0
 
+HasRel(S) == "rel" \in DOMAIN S /\ S.rel.kind = "perm"
+
+\* at the reachability observation of description 2
+RelReachClauses(S, d, prune, p2, rs2, reached, orcs) ==
+    IF ~HasRel(S) \/ d # 2 \/ ~(<<1, prune>> \in DOMAIN reached) THEN {}
+    ELSE
+    LET rel == S.rel
+        g   == S.descs[1]
+        r1  == reached[<<1, prune>>]
+        ex  == S.exact
+        ptol(s) == IF ex THEN 2 * orcs[1].tol[s] + 4 ELSE 1000000
+        G == 4000
+    IN  (IF ~IsPresentationRel(g, rel) \/ S.descs[2] # TransformGame(g, rel)
+         THEN {"Machinery.BadTransform"} ELSE {})
+        \cup (IF Len(p2) # g.n \/ Len(rs2) # g.n \/ Len(r1.prob) # g.n \/ Len(r1.rstrat) # g.n
+              THEN {"C13.Length"}
+              ELSE
+                {"C13.ProbRenumbered s=" \o S2(s) :
+                    s \in {s \in 1..g.n : ptol(s) < Nano /\
+                             ~FixNear(Fx(p2[rel.pi[s]]), Fx(r1.prob[s]), ptol(s))}}
+                \cup {"C13.ZeroRenumbered s=" \o S2(s) :
+                    s \in {s \in 1..g.n : p2[rel.pi[s]].z # r1.prob[s].z}}
+                \cup {"C13.RStratRenamed s=" \o S2(s) :
+                    s \in {s \in 1..g.n : g.owner[s] # PR /\ ~r1.rstrat[s].none /\
+                             LET j == ClearOpt(g.owner[s], g.tr[s], r1.prob, G + (IF ex THEN 2 * ptol(s) ELSE 0))
+                             IN  j # 0 /\ ptol(s) < Nano /\
+                                 ~( r1.rstrat[s].acts = <<g.tr[s][j].a>>
+                                    /\ rs2[rel.pi[s]].acts = <<Alpha(rel, g.tr[s][j].a)>> )}}
+                \cup {"C13.RStratShape s=" \o S2(s) :
+                    s \in {s \in 1..g.n : rs2[rel.pi[s]].none # r1.rstrat[s].none}})
+
+\* at the outcome of the call on description 2
 RelClauses(S, d, prune, o, outs, orcs) ==
-    IF ~("rel" \in DOMAIN S) \/ S.rel.kind # "perm" \/ d # 2 \/ ~(<<1, prune>> \in DOMAIN outs)
+    IF ~HasRel(S) \/ d # 2 \/ ~(<<1, prune>> \in DOMAIN outs)
     THEN {}
     ELSE
     LET rel == S.rel
         g   == S.descs[1]
         o1  == outs[<<1, prune>>]
         ex  == S.exact
-        ptol(s) == IF ex THEN 2 * orcs[1].tol[s] + 4 ELSE 1000000
         rtol(s) == IF s \in DOMAIN o1.rtol THEN 2 * o1.rtol[s] + 4 ELSE (IF ex THEN Nano ELSE 1000000)
         G == 4000
-    IN  (IF ~IsPresentationRel(g, rel) \/ S.descs[2] # TransformGame(g, rel)
-         THEN {"Machinery.BadTransform"} ELSE {})
-        \cup (IF o1.k # o.k \/ o1.cls # o.cls THEN {"C13.SolvableSame"} ELSE {})
+    IN  (IF o1.k # o.k \/ o1.cls # o.cls THEN {"C13.SolvableSame"} ELSE {})
         \cup (IF o1.k # "Return" \/ o.k # "Return" THEN {}
               ELSE
-                {"C13.ProbRenumbered s=" \o S2(s) :
-                    s \in {s \in 1..g.n : ptol(s) < Nano /\
-                             ~FixNear(Fx(o.prob[rel.pi[s]]), Fx(o1.prob[s]), ptol(s))}}
-                \cup {"C13.ZeroRenumbered s=" \o S2(s) :
-                    s \in {s \in 1..g.n : o.prob[rel.pi[s]].z # o1.prob[s].z}}
-                \cup {"C13.RewRenumbered s=" \o S2(s) :
+                {"C13.RewRenumbered s=" \o S2(s) :
                     s \in {s \in o1.dom : rtol(s) < Nano /\
                              ~FixNear(Fx(o.rew[rel.pi[s]]), Fx(o1.rew[s]), rtol(s))}}
-                \cup {"C13.RStratRenamed s=" \o S2(s) :
-                    s \in {s \in 1..g.n : g.owner[s] # PR /\
-                             LET j == ClearOpt(g.owner[s], g.tr[s], o1.prob, G + (IF ex THEN 2 * ptol(s) ELSE 0))
-                             IN  j # 0 /\ ptol(s) < Nano /\
-                                 ~( o1.rstrat[s].acts = <<g.tr[s][j].a>>
-                                    /\ o.rstrat[rel.pi[s]].acts = <<Alpha(rel, g.tr[s][j].a)>> )}}
-                \cup {"C13.RStratShape s=" \o S2(s) :
-                    s \in {s \in 1..g.n : o.rstrat[rel.pi[s]].none # o1.rstrat[s].none}}
                 \cup {"C13.FStratRenamed s=" \o S2(s) :
                     s \in {s \in o1.dom : g.owner[s] # PR /\ ~o1.rstrat[s].none /\
                              LET row == SelectSeq(g.tr[s], LAMBDA e :
